@@ -7,7 +7,7 @@ from py2coq import c18web
 
 ID = 'C18'
 LEVEL = 'proof'
-PROPS = ['Props/C18.v', 'Findings/C18.v']
+PROPS = ['Props/C18.v']       # no known finding left: Findings/C18.v was dropped with the Flask repair (8693e81)
 GEN = [('Gen/C18Web.v', c18web.generate)]
 TRUSTED = [
     'hand-written model Model/C18Session.v of DBSessionContextManager (_enter, __exit__, _commit_or_rollback, _wrap_function retry loop, generator wrapper) '
@@ -491,8 +491,8 @@ LEVEL_TEXT = ('Machine-checked proof (Coq 8.16.1) over an executable model of DB
               'attempt finished or raised an allowed, non-retried exception, runs at most retry+1 times, re-runs only after retryable exceptions, starts every '
               'attempt without pending writes, and propagates the final exception; for every nested program (sessions, decorated calls, try/except, sequences) '
               'nothing is committed or rolled back inside a live session; generator sessions commit on StopIteration or manual commit only and never suspend '
-              'with pending writes; the Bottle plugin is an instance; the Flask integration is proved correct only if __exit__ receives the exception type and '
-              'refuted for the unchanged code (known finding). The model is tied to /repo by exhaustive small-scope correspondence of full traces.')
+              'with pending writes; the Bottle plugin is an instance; the Flask integration (whether __exit__ receives the exception type is re-read from the source) '
+              'commits a request iff its view finished. The model is tied to /repo by exhaustive small-scope correspondence of full traces.')
 LEVEL_NOTE = ('Trusted: Coq kernel + vm_compute; the hand-written model (tied by correspondence, not by translation, except the Flask/Bottle facts and the decision '
               'skeleton of _commit_or_rollback which are re-read from source each run); harness stubs of flask/bottle. Not modelled: ddl sessions, failing '
               'rollback(), predicates that raise, bodies that call commit()/rollback() themselves (except generators).')
